@@ -34,93 +34,142 @@ def absOut : Out → SOut
 
 /-! ## hypotheses on transmitted matches, by code variant -/
 
-/-- hypotheses on a transmitted match under which the code — in the variant `cfg` — treats it as the standard says.  The first
-    three are open C03 findings (D38, D36, D26); the last three are C04-2 and C04-1 and fall away with the proposed repairs. -/
+/-- hypotheses on a transmitted match under which the code — in the variant `cfg` — treats it as the standard says.  Each clause
+    is needed only by the variant that lacks the corresponding repair (D38, D26 of C03; C04-2, C04-1); only `tos` (D36, open) is
+    unconditional.  For `/repo` with all repairs nothing but `tos` is left. -/
 structure WireOk (cfg : Cfg) (r : OfMatch) : Prop where
-  prereq : PrereqExact r
+  /-- without D38: wildcarded dl_type / nw_proto fields do not look like prerequisites -/
+  prereq : cfg.mv.prereqExact = false → PrereqExact r
   tos : r.nwTos % 4 = 0
-  exactL4 : Spec.exact r = true → r.dlType = 0x0800 ∧ isL4Proto r.nwProto = true
-  /-- unrepaired C04-2 only: none of the undefined bits 22..31 of the wildcard word -/
+  /-- without D26: a flow that is exact under the prerequisite rule has no wildcard bit at all and is IPv4 TCP/UDP/ICMP -/
+  exactL4 : cfg.mv.exactSig = false → Spec.exactSig r = true →
+    Spec.exact r = true ∧ r.dlType = 0x0800 ∧ isL4Proto r.nwProto = true
+  /-- without C04-2: none of the undefined bits 22..31 of the wildcard word -/
   width : cfg.maskUndefined = false → r.wildcards < 2 ^ 22
-  /-- unrepaired C04-1 only: no address bits below the prefix length -/
+  /-- without C04-1: no address bits below the prefix length -/
   hostSrc : cfg.strictMutual = false → Spec.srcIgn r < 32 → r.nwSrc % 2 ^ Spec.srcIgn r = 0
   hostDst : cfg.strictMutual = false → Spec.dstIgn r < 32 → r.nwDst % 2 ^ Spec.dstIgn r = 0
 
-/-- the record the code's comparisons are effectively made on -/
-def eff (cfg : Cfg) (r : OfMatch) : OfMatch := if cfg.maskUndefined then maskUndef r else r
+/-- the record the code's comparisons are effectively made on: wildcarded prerequisite fields read as absent (D38), undefined
+    wildcard bits dropped (C04-2) -/
+def eff (cfg : Cfg) (r : OfMatch) : OfMatch := if cfg.maskUndefined then maskUndef (cfg.mv.pre r) else cfg.mv.pre r
 
-theorem rxMatch_eq (cfg : Cfg) (r : OfMatch) : rxMatch cfg r = ofWire (eff cfg r) := by
+/-- the match object of a flow-mod is, for every test, HEAD's `unpack(flow_mod=True)` of the effective record -/
+theorem rx_same (cfg : Cfg) (r : OfMatch) : SameViews (rxMatch cfg r) (ofWire (eff cfg r)) := by
+  have hget : ∀ f, (cfg.mv.ofWire r).get f = r.get f := by intro f; cases f <;> rfl
+  have hwild : ∀ f, (ofWire (cfg.mv.pre r)).wild f = false → r.wild f = false := by
+    intro f hf
+    rw [ofWire_wild, Variant.pre_wild] at hf
+    simpa using (Bool.or_eq_false_iff.mp hf).1
   unfold rxMatch eff
-  cases cfg.maskUndefined
-  · rfl
-  · simp only [if_true]; exact ofWire_masked r
+  cases hm : cfg.maskUndefined
+  · simp only [Bool.false_eq_true, if_false]
+    refine ⟨rfl, ?_, rfl, rfl⟩
+    intro f hf
+    rw [hget, ofWire_get]
+    exact (Variant.pre_get cfg.mv r f (hwild f hf)).symm
+  · simp only [if_true]
+    have hw : (cfg.mv.ofWire r).wildcards &&& FW_ALL = (ofWire (maskUndef (cfg.mv.pre r))).wildcards :=
+      congrArg OfMatch.wildcards (ofWire_masked (cfg.mv.pre r))
+    refine ⟨hw, ?_, rfl, rfl⟩
+    intro f hf
+    have hf' : (ofWire (cfg.mv.pre r)).wild f = false := by
+      have hb : f.bit < 22 := by cases f <;> decide
+      have e : FW_ALL = 2 ^ 22 - 1 := by decide
+      have : ((cfg.mv.ofWire r).wildcards &&& FW_ALL).testBit f.bit = false := hf
+      rw [Nat.testBit_and, e, Nat.testBit_two_pow_sub_one] at this
+      have h2 : (cfg.mv.ofWire r).wildcards.testBit f.bit = false := by simpa [hb] using this
+      exact h2
+    show (cfg.mv.ofWire r).get f = _
+    rw [hget, ofWire_get]
+    show r.get f = (cfg.mv.pre r).get f
+    exact (Variant.pre_get cfg.mv r f (hwild f hf')).symm
 
 theorem core_eff {cfg : Cfg} {r : OfMatch} (h : WireOk cfg r) : MatchCore (eff cfg r) := by
+  have hp := Variant.prereq_pre cfg.mv r h.prereq
   unfold eff
   cases hm : cfg.maskUndefined
-  · exact ⟨h.prereq, h.tos, h.width hm, h.exactL4⟩
-  · exact matchCore_mask r h.prereq h.tos h.exactL4
+  · exact ⟨hp, h.tos, h.width hm⟩
+  · exact matchCore_mask _ hp h.tos
 
 theorem ok_eff {cfg : Cfg} {r : OfMatch} (h : WireOk cfg r) (hs : cfg.strictMutual = false) : MatchOk (eff cfg r) := by
   refine { toMatchCore := core_eff h, hostSrc := ?_, hostDst := ?_ }
   · unfold eff; cases cfg.maskUndefined
-    · exact h.hostSrc hs
-    · simp only [if_true, srcIgn_mask]; exact h.hostSrc hs
+    · simp only [Bool.false_eq_true, if_false, Variant.srcIgn_pre]; exact h.hostSrc hs
+    · simp only [if_true, srcIgn_mask, Variant.srcIgn_pre]; exact h.hostSrc hs
   · unfold eff; cases cfg.maskUndefined
-    · exact h.hostDst hs
-    · simp only [if_true, dstIgn_mask]; exact h.hostDst hs
+    · simp only [Bool.false_eq_true, if_false, Variant.dstIgn_pre]; exact h.hostDst hs
+    · simp only [if_true, dstIgn_mask, Variant.dstIgn_pre]; exact h.hostDst hs
 
-theorem subsumes_eff (cfg : Cfg) (a b : OfMatch) : subsumes (eff cfg a) (eff cfg b) = subsumes a b := by
-  unfold eff; cases cfg.maskUndefined <;> simp [subsumes_mask_left, subsumes_mask_right]
-theorem subsumes_eff_right (cfg : Cfg) (a b : OfMatch) : subsumes a (eff cfg b) = subsumes a b := by
-  unfold eff; cases cfg.maskUndefined <;> simp [subsumes_mask_right]
-theorem identical_eff (cfg : Cfg) (a b : OfMatch) : identical (eff cfg a) (eff cfg b) = identical a b := by
-  unfold eff; cases cfg.maskUndefined <;> simp [identical_mask_left, identical_mask_right]
-theorem overlaps_eff (cfg : Cfg) (a b : OfMatch) : overlaps (eff cfg a) (eff cfg b) = overlaps a b := by
-  unfold eff; cases cfg.maskUndefined <;> simp [overlaps_mask_left, overlaps_mask_right]
 theorem matchHdr_eff (cfg : Cfg) (r : OfMatch) (h : Headers) : matchHdr (eff cfg r) h = matchHdr r h := by
-  unfold eff; cases cfg.maskUndefined <;> simp [matchHdr_mask]
-theorem exact_eff (cfg : Cfg) (r : OfMatch) : Spec.exact (eff cfg r) = Spec.exact r := by
-  unfold eff; cases cfg.maskUndefined <;> simp [exact_mask]
+  unfold eff; cases cfg.maskUndefined <;> simp [matchHdr_mask, Variant.matchHdr_pre]
+theorem subsumes_eff (cfg : Cfg) (a b : OfMatch) : subsumes (eff cfg a) (eff cfg b) = subsumes a b := by
+  rw [Bool.eq_iff_iff, subsumes_forall, subsumes_forall]; simp only [matchHdr_eff]
+theorem subsumes_eff_right (cfg : Cfg) (a b : OfMatch) : subsumes a (eff cfg b) = subsumes a b := by
+  rw [Bool.eq_iff_iff, subsumes_forall, subsumes_forall]; simp only [matchHdr_eff]
+theorem identical_eff (cfg : Cfg) (a b : OfMatch) : identical (eff cfg a) (eff cfg b) = identical a b := by
+  simp only [identical, subsumes_eff]
+theorem overlaps_eff (cfg : Cfg) (a b : OfMatch) : overlaps (eff cfg a) (eff cfg b) = overlaps a b := by
+  rw [Bool.eq_iff_iff, overlaps_iff_exists, overlaps_iff_exists]; simp only [matchHdr_eff]
 
 /-- non-strict MODIFY / DELETE: the code's test is the standard's subsumption -/
 theorem rx_subsumes (cfg : Cfg) (a b : OfMatch) (ha : WireOk cfg a) (hb : WireOk cfg b) :
     matchesWith true (rxMatch cfg a) (rxMatch cfg b) = subsumes a b := by
-  rw [rxMatch_eq, rxMatch_eq, subsumes_code _ _ (core_eff ha) (core_eff hb), subsumes_eff]
+  rw [(rx_same cfg a).matchesWith_left, (rx_same cfg b).matchesWith_right, subsumes_code _ _ (core_eff ha) (core_eff hb), subsumes_eff]
 
 /-- strict commands and ADD's replacement: the code's test is the standard's "identical header fields" -/
 theorem rx_strict (cfg : Cfg) (e m : OfMatch) (he : WireOk cfg e) (hm : WireOk cfg m) :
     strictMatch cfg (rxMatch cfg e) (rxMatch cfg m) = identical e m := by
   unfold strictMatch
-  rw [rxMatch_eq, rxMatch_eq]
   cases hs : cfg.strictMutual
   · simp only [Bool.false_eq_true, if_false]
-    rw [strict_iff _ _ (ok_eff he hs) (ok_eff hm hs), identical_eff]
+    rw [(rx_same cfg e).eqMatch_left, (rx_same cfg m).eqMatch_right, strict_iff _ _ (ok_eff he hs) (ok_eff hm hs), identical_eff]
   · simp only [if_true]
-    rw [mutual_iff _ _ (core_eff he) (core_eff hm), identical_eff]
+    rw [(rx_same cfg m).matchesWith_left, (rx_same cfg e).matchesWith_right, (rx_same cfg e).matchesWith_left,
+      (rx_same cfg m).matchesWith_right, mutual_iff _ _ (core_eff he) (core_eff hm), identical_eff]
 
 /-- CHECK_OVERLAP -/
 theorem rx_overlaps (cfg : Cfg) (a b : OfMatch) (ha : WireOk cfg a) (hb : WireOk cfg b) :
     overlapsWith (rxMatch cfg a) (rxMatch cfg b) = overlaps a b := by
-  rw [rxMatch_eq, rxMatch_eq, overlaps_code _ _ (core_eff ha) (core_eff hb), overlaps_eff]
+  rw [(rx_same cfg a).overlapsWith_left, (rx_same cfg b).overlapsWith_right, overlaps_code _ _ (core_eff ha) (core_eff hb),
+    overlaps_eff]
+
+/-- lookup: the entry accepts the frame iff the standard's matching does -/
+theorem rx_accepts (cfg : Cfg) (r : OfMatch) (hr : WireOk cfg r) (p : PHdr) (port : Nat) (hp : cfg.mv.regular p = true)
+    (hpt : pktTos p % 4 = 0) :
+    matchesWith false (rxMatch cfg r) (cfg.mv.fromPacket p port) = matchHdr r (headers p port) := by
+  rw [(rx_same cfg r).matchesWith_left, ← matchHdr_eff cfg r]
+  exact wire_accepts (eff cfg r) _ _ (core_eff hr).prereq (core_eff hr).tos (extract_agreeG (!cfg.mv.arpLow8) p port hp hpt)
 
 /-- hypotheses on the match of a statistics request -/
 structure StatsOk (cfg : Cfg) (m : OfMatch) : Prop where
-  prereq : PrereqExact m
+  prereq : cfg.mv.prereqExact = false → PrereqExact m
   tos : m.nwTos % 4 = 0
   /-- unrepaired C04-3 only: the fields the standard ignores are wildcarded already -/
-  canon : cfg.statsUnwire = false → ofWirePlain m = ofWire m
+  canon : cfg.statsUnwire = false → ofWirePlain m = cfg.mv.ofWire m
 
-theorem statsMatch_eq (cfg : Cfg) (m : OfMatch) (h : StatsOk cfg m) : statsMatch cfg m = ofWire m := by
+theorem pre_ofWirePlain (v : Variant) (m : OfMatch) : v.pre (ofWirePlain m) = ofWirePlain (v.pre m) := by
+  have h4 : (normalize m.wildcards).testBit Fld.dlType.bit = m.wildcards.testBit Fld.dlType.bit :=
+    normalize_testBit _ _ (Fld.bit_range _)
+  have h5 : (normalize m.wildcards).testBit Fld.nwProto.bit = m.wildcards.testBit Fld.nwProto.bit :=
+    normalize_testBit _ _ (Fld.bit_range _)
+  simp only [Variant.pre, ofWirePlain, Variant.effDlType, Variant.effNwProto, h4, h5]
+
+/-- the match object of a statistics request is, for the non-strict test, `ofWire` of the normalised request -/
+theorem stats_same (cfg : Cfg) (m : OfMatch) (h : StatsOk cfg m) (c : Bool) (b : OfMatch) :
+    matchesWith c (statsMatch cfg m) b = matchesWith c (ofWire (cfg.mv.pre m)) b := by
   unfold statsMatch
   cases hs : cfg.statsUnwire
-  · exact h.canon hs
-  · exact ofWire_ofWirePlain m
+  · simp only [Bool.false_eq_true, if_false]
+    rw [h.canon hs, Variant.ofWire_left]
+  · simp only [if_true]
+    rw [Variant.ofWire_left, pre_ofWirePlain, ofWire_ofWirePlain]
 
 theorem stats_subsumes (cfg : Cfg) (m b : OfMatch) (hm : StatsOk cfg m) (hb : WireOk cfg b) :
     matchesWith true (statsMatch cfg m) (rxMatch cfg b) = subsumes m b := by
-  rw [statsMatch_eq cfg m hm, rxMatch_eq,
-    code_subsumes m (eff cfg b) hm.prereq (core_eff hb).prereq hm.tos (core_eff hb).tos (core_eff hb).width, subsumes_eff_right]
+  rw [stats_same cfg m hm, (rx_same cfg b).matchesWith_right,
+    code_subsumes (cfg.mv.pre m) (eff cfg b) (Variant.prereq_pre cfg.mv m hm.prereq) (core_eff hb).prereq hm.tos (core_eff hb).tos
+      (core_eff hb).width, subsumes_eff_right, Variant.subsumes_pre_left]
 
 /-! ## invariant and hypotheses -/
 
@@ -132,7 +181,7 @@ structure EntryOk (cfg : Cfg) (e : FEntry) : Prop where
   noEmerg : e.data.flags.testBit FF_EMERG = false
 
 structure Inv (s : State) : Prop where
-  sorted : Sorted s.table
+  sorted : SortedC s.cfg s.table
   ok : ∀ e ∈ s.table, EntryOk s.cfg e
   bounded : s.table.length ≤ s.maxEntries
 
@@ -144,7 +193,7 @@ structure MsgOk (cfg : Cfg) (fm : FlowModMsg) : Prop where
 /-- hypotheses on one event of a history -/
 def OpOk (cfg : Cfg) : Op → Prop
   | .flowMod fm => MsgOk cfg fm
-  | .packet p _ _ => regular p = true ∧ pktTos p % 4 = 0
+  | .packet p _ _ => cfg.mv.regular p = true ∧ pktTos p % 4 = 0
   | .flowStats m _ => StatsOk cfg m
   | .aggStats m _ => StatsOk cfg m
   | .advance _ => True
@@ -159,33 +208,32 @@ theorem mkEntry_ok (cfg : Cfg) (now : Nat) (fm : FlowModMsg) (h : MsgOk cfg fm) 
 
 /-! ## rank -/
 
-theorem eff_of_ok {cfg : Cfg} (e : FEntry) (h : EntryOk cfg e) :
-    e.effectivePriority = if Spec.exact e.data.wire = true then EXACT_PRIORITY else e.priority := by
-  unfold Entry.effectivePriority
-  rw [h.wf, rxMatch_eq]
-  have hiff := ofWire_exact_iff (eff cfg e.data.wire)
-  have hc := core_eff h.mok
-  rw [exact_eff] at hiff
-  by_cases hx : Spec.exact e.data.wire = true
-  · have : (ofWire (eff cfg e.data.wire)).isWildcarded = false := hiff.mpr ⟨hx, hc.exactL4 (by rw [exact_eff]; exact hx)⟩
-    simp [this, hx]
-  · have : (ofWire (eff cfg e.data.wire)).isWildcarded = true := by
-      cases hq : (ofWire (eff cfg e.data.wire)).isWildcarded
-      · exact absurd (hiff.mp hq).1 hx
-      · rfl
-    simp [this, hx]
+/-- the code's exactness test on the match object of a flow-mod is the standard's (prerequisite-rule reading) -/
+theorem rx_isWildcarded (cfg : Cfg) (r : OfMatch) (h : WireOk cfg r) : cfg.mv.isWildcarded (rxMatch cfg r) = !Spec.exactSig r := by
+  have := Variant.exact_agree cfg.mv r h.exactL4
+  unfold rxMatch
+  cases cfg.maskUndefined
+  · exact this
+  · simp only [if_true]
+    rw [Variant.isWildcarded_masked]; exact this
 
-theorem rank_abs (e : FEntry) : (absEntry e).rank = if Spec.exact e.data.wire = true then 0x10000 else e.priority := rfl
+theorem eff_of_ok {cfg : Cfg} (e : FEntry) (h : EntryOk cfg e) :
+    cfg.key e = if Spec.exactSig e.data.wire = true then EXACT_PRIORITY else e.priority := by
+  unfold Cfg.key Variant.effectivePriority
+  rw [h.wf, rx_isWildcarded cfg _ h.mok]
+  cases Spec.exactSig e.data.wire <;> simp
+
+theorem rank_abs (e : FEntry) : (absEntry e).rank = if Spec.exactSig e.data.wire = true then 0x10000 else e.priority := rfl
 
 theorem eff_gt_iff {cfg : Cfg} (e e' : FEntry) (h : EntryOk cfg e) (h' : EntryOk cfg e') :
-    e.effectivePriority > e'.effectivePriority ↔ (absEntry e).rank > (absEntry e').rank := by
+    cfg.key e > cfg.key e' ↔ (absEntry e).rank > (absEntry e').rank := by
   rw [eff_of_ok e h, eff_of_ok e' h', rank_abs, rank_abs]
   have := h.prio; have := h'.prio
   simp only [EXACT_PRIORITY]
   split <;> split <;> omega
 
 theorem eff_eq_iff {cfg : Cfg} (e e' : FEntry) (h : EntryOk cfg e) (h' : EntryOk cfg e') :
-    e.effectivePriority = e'.effectivePriority ↔ (absEntry e).rank = (absEntry e').rank := by
+    cfg.key e = cfg.key e' ↔ (absEntry e).rank = (absEntry e').rank := by
   rw [eff_of_ok e h, eff_of_ok e' h', rank_abs, rank_abs]
   have := h.prio; have := h'.prio
   simp only [EXACT_PRIORITY]
@@ -298,14 +346,14 @@ theorem takeWhile_map_abs (t : Table EData) (p : FEntry → Bool) (q : SFlow →
     · simp
 
 /-- `add_entry` puts the entry where the specification's ordered insertion puts the flow -/
-theorem addEntry_abs {cfg : Cfg} (new : FEntry) (t : Table EData) (hs : Sorted t) (hok : ∀ e ∈ t, EntryOk cfg e) (hn : EntryOk cfg new) :
-    (addEntry new t).map absEntry = insertFlow (absEntry new) (t.map absEntry) := by
-  obtain ⟨k, hle, heq, hpos⟩ := addEntry_eq new t
-  obtain ⟨k', hk', hk'le, hlo, hup⟩ := insertPos?_spec new.effectivePriority (t.map Entry.effectivePriority)
-    ((sorted_iff_desc t).mp hs)
+theorem addEntry_abs {cfg : Cfg} (new : FEntry) (t : Table EData) (hs : SortedC cfg t) (hok : ∀ e ∈ t, EntryOk cfg e)
+    (hn : EntryOk cfg new) :
+    (addEntryBy cfg.key new t).map absEntry = insertFlow (absEntry new) (t.map absEntry) := by
+  obtain ⟨k, hle, heq, hpos⟩ := addEntryBy_eq cfg.key new t
+  obtain ⟨k', hk', hk'le, hlo, hup⟩ := insertPos?_spec (cfg.key new) (t.map cfg.key) ((sortedBy_iff_desc cfg.key t).mp hs)
   rw [hpos] at hk'
   cases hk'
-  have htw := takeWhile_index (fun e : FEntry => decide (e.effectivePriority > new.effectivePriority)) t k hle
+  have htw := takeWhile_index (fun e : FEntry => decide (cfg.key e > cfg.key new)) t k hle
     (fun i h hi => by
       have := hlo i (by simpa using h) hi
       simp only [List.getElem_map] at this
@@ -314,7 +362,7 @@ theorem addEntry_abs {cfg : Cfg} (new : FEntry) (t : Table EData) (hs : Sorted t
       have := hup i (by simpa using h) hi
       simp only [List.getElem_map] at this
       simp only [decide_eq_false_iff_not]; omega)
-  have hmap := takeWhile_map_abs t (fun e : FEntry => decide (e.effectivePriority > new.effectivePriority))
+  have hmap := takeWhile_map_abs t (fun e : FEntry => decide (cfg.key e > cfg.key new))
     (fun g => decide (g.rank > (absEntry new).rank))
     (fun e he => by
       have := eff_gt_iff e new (hok e he) hn
@@ -378,14 +426,14 @@ theorem addBase_abs_modify (s : State) (fm : FlowModMsg) (strict : Bool) (hc : f
   simp [not_same_of_not_selected fm.mtch fm.priority strict f (by simpa using this)]
 
 theorem overlap_abs (s : State) (fm : FlowModMsg) (hi : Inv s) (hm : MsgOk s.cfg fm) (he : fm.flags.testBit FF_EMERG = false) :
-    overlapScan (mkEntry s.cfg s.now fm).effectivePriority (rxMatch s.cfg fm.mtch) s.table =
+    overlapScan s.cfg.key (s.cfg.key (mkEntry s.cfg s.now fm)) (rxMatch s.cfg fm.mtch) s.table =
       (abs s).flows.any (fun g => g.rank == (newFlow s.now fm).rank && overlaps g.mtch fm.mtch) := by
-  rw [overlapScan_sorted _ _ _ hi.sorted]
+  rw [overlapScan_sorted _ _ _ _ hi.sorted]
   apply any_map_abs
   intro e hmem
   have hok := hi.ok e hmem
   have hnew := mkEntry_ok s.cfg s.now fm hm he
-  have hrank : (e.effectivePriority == (mkEntry s.cfg s.now fm).effectivePriority) = ((absEntry e).rank == (newFlow s.now fm).rank) := by
+  have hrank : (s.cfg.key e == s.cfg.key (mkEntry s.cfg s.now fm)) = ((absEntry e).rank == (newFlow s.now fm).rank) := by
     have := eff_eq_iff e (mkEntry s.cfg s.now fm) hok hnew
     rw [Bool.eq_iff_iff]; simp only [beq_iff_eq]; exact this
   rw [hrank, hok.wf, rx_overlaps s.cfg e.data.wire fm.mtch hok.mok hm.mok]
@@ -401,7 +449,7 @@ theorem flowModAdd_refines (s : State) (fm : FlowModMsg) (hi : Inv s) (hm : MsgO
   · have hE' : fm.flags.testBit FF_EMERG = false := by simpa using hE
     rw [if_neg hE, if_neg hE]
     have hov : (fm.flags.testBit FF_CHECK_OVERLAP &&
-        overlapScan (mkEntry s.cfg s.now fm).effectivePriority (rxMatch s.cfg fm.mtch) s.table) =
+        overlapScan s.cfg.key (s.cfg.key (mkEntry s.cfg s.now fm)) (rxMatch s.cfg fm.mtch) s.table) =
         (fm.flags.testBit FF_CHECK_OVERLAP &&
           (abs s).flows.any (fun g => g.rank == (newFlow (abs s).now fm).rank && overlaps g.mtch fm.mtch)) := by
       cases hC : fm.flags.testBit FF_CHECK_OVERLAP
@@ -489,17 +537,19 @@ theorem account_abs (t : Table EData) (acc : FEntry → Bool) (hit : SFlow → B
     · rfl
     · simp [h2]
 
-theorem accepts_abs {cfg : Cfg} (e : FEntry) (he : EntryOk cfg e) (p : PHdr) (port : Nat) (hr : regular p = true) (hpt : pktTos p % 4 = 0) :
-    e.accepts (fromPacket p port) = matchHdr (absEntry e).mtch (headers p port) := by
+theorem accepts_abs {cfg : Cfg} (e : FEntry) (he : EntryOk cfg e) (p : PHdr) (port : Nat) (hr : cfg.mv.regular p = true)
+    (hpt : pktTos p % 4 = 0) :
+    e.accepts (cfg.mv.fromPacket p port) = matchHdr (absEntry e).mtch (headers p port) := by
   unfold Entry.accepts
-  rw [he.wf, rxMatch_eq, wire_accepts_packet _ p port (core_eff he.mok).prereq (core_eff he.mok).tos hr hpt, matchHdr_eff]
-  rfl
+  rw [he.wf]
+  exact rx_accepts cfg e.data.wire he.mok p port hr hpt
 
-theorem packetStep_refines (s : State) (p : PHdr) (port len : Nat) (hi : Inv s) (hr : regular p = true) (hpt : pktTos p % 4 = 0) :
+theorem packetStep_refines (s : State) (p : PHdr) (port len : Nat) (hi : Inv s) (hr : s.cfg.mv.regular p = true)
+    (hpt : pktTos p % 4 = 0) :
     abs (packetStep s p port len).1 = (Spec.receive (abs s) p port len).1 ∧
     (packetStep s p port len).2.map absOut = (Spec.receive (abs s) p port len).2 := by
   unfold packetStep Spec.receive
-  have hacc : ∀ e ∈ s.table, Entry.accepts (fromPacket p port) e = matchHdr (absEntry e).mtch (headers p port) :=
+  have hacc : ∀ e ∈ s.table, Entry.accepts (s.cfg.mv.fromPacket p port) e = matchHdr (absEntry e).mtch (headers p port) :=
     fun e he => accepts_abs e (hi.ok e he) p port hr hpt
   have hany := any_map_abs s.table _ (fun f : SFlow => matchHdr f.mtch (headers p port)) hacc
   have hflows : (abs s).flows = s.table.map absEntry := rfl
@@ -619,7 +669,7 @@ theorem step_refines (s : State) (op : Op) (hi : Inv s) (ho : OpOk s.cfg op) :
   cases op with
   | flowMod fm => exact flowModStep_refines s fm hi ho
   | packet p port len =>
-    have h : regular p = true ∧ pktTos p % 4 = 0 := ho
+    have h : s.cfg.mv.regular p = true ∧ pktTos p % 4 = 0 := ho
     exact packetStep_refines s p port len hi h.1 h.2
   | advance dt => exact ⟨rfl, rfl⟩
   | sweep => exact sweep_refines s hi
@@ -650,7 +700,7 @@ theorem flowModAdd_bounded (s : State) (fm : FlowModMsg) (h : s.table.length ≤
     · exact h
     · split
       · exact Nat.le_trans hb h
-      · have := (addEntry_perm (mkEntry s.cfg s.now fm) (addBase s fm)).length_eq
+      · have := (addEntryBy_perm s.cfg.key (mkEntry s.cfg s.now fm) (addBase s fm)).length_eq
         simp only [List.length_cons] at this
         simp only [this]
         omega
@@ -697,7 +747,7 @@ theorem entryOk_of_kept (s : State) (e' : FEntry) (hk : Kept s e') (hok : ∀ e 
   exact ⟨by rw [hm, hw]; exact this.wf, by rw [hw]; exact this.mok, by rw [hp]; exact this.prio, by rw [hf]; exact this.noEmerg⟩
 
 theorem step_inv (s : State) (op : Op) (hi : Inv s) (ho : OpOk s.cfg op) : Inv (step s op).1 := by
-  refine ⟨step_sorted s op hi.sorted, ?_, step_bounded s op hi.bounded⟩
+  refine ⟨by rw [step_cfg]; exact step_sorted s op hi.sorted, ?_, step_bounded s op hi.bounded⟩
   rw [step_cfg]
   intro e' he'
   rcases step_clocks s op e' he' with hk | ⟨p, port, len, rfl, e, he, _, rfl⟩ | ⟨fm, rfl, rfl, hE⟩
@@ -708,11 +758,6 @@ theorem step_inv (s : State) (op : Op) (hi : Inv s) (ho : OpOk s.cfg op) : Inv (
 
 /-- every event of the history satisfies its hypotheses (the code variant is constant along a history) -/
 def HistOk (cfg : Cfg) (ops : List Op) : Prop := ∀ op ∈ ops, OpOk cfg op
-
-theorem run_cfg (s : State) (ops : List Op) : (run s ops).1.cfg = s.cfg := by
-  induction ops generalizing s with
-  | nil => rfl
-  | cons op ops ih => simp only [run]; rw [ih, step_cfg]
 
 theorem run_refines (s : State) (ops : List Op) (hi : Inv s) (h : HistOk s.cfg ops) :
     abs (run s ops).1 = (Spec.run (abs s) ops).1 ∧
@@ -783,9 +828,9 @@ theorem flowModAdd_uniq (s : State) (fm : FlowModMsg) (hu : Uniq s.cfg s.table)
     · exact hu
     · split
       · exact hb
-      · show Uniq s.cfg (addEntry (mkEntry s.cfg s.now fm) (addBase s fm))
+      · show Uniq s.cfg (addEntryBy s.cfg.key (mkEntry s.cfg s.now fm) (addBase s fm))
         unfold Uniq
-        rw [(addEntry_perm (mkEntry s.cfg s.now fm) (addBase s fm)).pairwise_iff (fun h => sameKey_symm h)]
+        rw [(addEntryBy_perm s.cfg.key (mkEntry s.cfg s.now fm) (addBase s fm)).pairwise_iff (fun h => sameKey_symm h)]
         exact List.pairwise_cons.mpr ⟨hnew, hb⟩
 
 theorem addBase_fresh_add (s : State) (fm : FlowModMsg) (hc : fm.cmd = .add) :
@@ -882,7 +927,8 @@ theorem run_uniq (s : State) (ops : List Op) (hu : Uniq s.cfg s.table) : Uniq (r
 instance (r : OfMatch) : Decidable (PrereqExact r) := by unfold PrereqExact; exact inferInstance
 
 theorem wireOk_iff (cfg : Cfg) (r : OfMatch) : WireOk cfg r ↔
-    (PrereqExact r ∧ r.nwTos % 4 = 0 ∧ (Spec.exact r = true → r.dlType = 0x0800 ∧ isL4Proto r.nwProto = true) ∧
+    ((cfg.mv.prereqExact = false → PrereqExact r) ∧ r.nwTos % 4 = 0 ∧
+     (cfg.mv.exactSig = false → Spec.exactSig r = true → Spec.exact r = true ∧ r.dlType = 0x0800 ∧ isL4Proto r.nwProto = true) ∧
      (cfg.maskUndefined = false → r.wildcards < 2 ^ 22) ∧
      (cfg.strictMutual = false → Spec.srcIgn r < 32 → r.nwSrc % 2 ^ Spec.srcIgn r = 0) ∧
      (cfg.strictMutual = false → Spec.dstIgn r < 32 → r.nwDst % 2 ^ Spec.dstIgn r = 0)) :=
@@ -891,7 +937,7 @@ theorem wireOk_iff (cfg : Cfg) (r : OfMatch) : WireOk cfg r ↔
 instance (cfg : Cfg) (r : OfMatch) : Decidable (WireOk cfg r) := decidable_of_iff _ (wireOk_iff cfg r).symm
 
 theorem statsOk_iff (cfg : Cfg) (m : OfMatch) : StatsOk cfg m ↔
-    (PrereqExact m ∧ m.nwTos % 4 = 0 ∧ (cfg.statsUnwire = false → ofWirePlain m = ofWire m)) :=
+    ((cfg.mv.prereqExact = false → PrereqExact m) ∧ m.nwTos % 4 = 0 ∧ (cfg.statsUnwire = false → ofWirePlain m = cfg.mv.ofWire m)) :=
   ⟨fun h => ⟨h.prereq, h.tos, h.canon⟩, fun ⟨a, b, c⟩ => ⟨a, b, c⟩⟩
 
 instance (cfg : Cfg) (m : OfMatch) : Decidable (StatsOk cfg m) := decidable_of_iff _ (statsOk_iff cfg m).symm
@@ -903,7 +949,7 @@ instance (cfg : Cfg) (fm : FlowModMsg) : Decidable (MsgOk cfg fm) := decidable_o
 
 instance (cfg : Cfg) : (op : Op) → Decidable (OpOk cfg op)
   | .flowMod fm => inferInstanceAs (Decidable (MsgOk cfg fm))
-  | .packet p _ _ => inferInstanceAs (Decidable (regular p = true ∧ pktTos p % 4 = 0))
+  | .packet p _ _ => inferInstanceAs (Decidable (cfg.mv.regular p = true ∧ pktTos p % 4 = 0))
   | .flowStats m _ => inferInstanceAs (Decidable (StatsOk cfg m))
   | .aggStats m _ => inferInstanceAs (Decidable (StatsOk cfg m))
   | .advance _ => isTrue trivial
